@@ -3,7 +3,9 @@
 # with a private, refreshed copy of the machinery (/tmp/v<slot>) against the author's scratch worktree /tmp/mut4/<Cxx>.
 export GOFLAGS=-mod=mod GOPROXY=off GOSUMDB=off GOTOOLCHAIN=local
 S=$1; P=$2; K=$3
-W=/tmp/mut4/$P; O=/tmp/mut4out/$P
+# a PRIVATE worktree per slot: two slots evaluating patches of the same property must not share one
+W=/tmp/mut4s/s$S; O=/tmp/mut4out/$P
+[ -d $W ] || { mkdir -p /tmp/mut4s; git -C ${REPO_ROOT:-/repo} worktree add --detach $W HEAD >/dev/null 2>&1; }
 [ -d /tmp/v$S ] || rsync -a --exclude .git --exclude .cache --exclude out/replays --exclude seeded /verif/ /tmp/v$S/
 rsync -a --exclude .git --exclude .cache --exclude out --exclude seeded --exclude evidence --exclude bin --exclude '*.vo' --exclude '*.glob' --exclude '*.aux' /verif/ /tmp/v$S/
 shift 3
